@@ -21,6 +21,9 @@ pub struct Case {
     /// a reader is open at every writer begin: each transaction a new reader opens, then the previous one closes
     #[serde(default)]
     pub handover: bool,
+    /// several readers: (opened before transaction a, closed before transaction c); checked in full when closed
+    #[serde(default)]
+    pub readers: Vec<(usize, usize)>,
     pub seed: u64,
 }
 
@@ -183,7 +186,7 @@ pub fn run_case(c: &Case, path: &std::path::Path) -> Outcome {
     let ps = c.pagesize;
     let has_reader = c.reader.1 > c.reader.0;
     // with a reader on the same thread the file must not grow: pre-size generously
-    let num_pages = if has_reader { 4 + 40 * c.txs.max(100) } else if c.handover { 4096 } else { 4 };
+    let num_pages = if has_reader || !c.readers.is_empty() { 4 + 40 * c.txs.max(100) } else if c.handover { 4096 } else { 4 };
     let _ = std::fs::remove_file(path);
     let open = |p: &std::path::Path| -> Result<DB, String> {
         OpenOptions::new()
@@ -213,6 +216,43 @@ pub fn run_case(c: &Case, path: &std::path::Path) -> Outcome {
     let r = util::catch(|| -> Result<(), String> {
         let mut db = open(path)?;
         let mut t = 0;
+        if !c.readers.is_empty() {
+            // several readers with their own open / close times; each is read in full when it closes
+            crate::c03::forbid_grow(true);
+            let mut open: Vec<(usize, jammdb::Tx, MBucket)> = Vec::new();
+            while t < c.txs {
+                for (ri, (a, _)) in c.readers.iter().enumerate() {
+                    if *a == t {
+                        open.push((ri, db.tx(false).map_err(|e| e.to_string())?, st.committed.clone()));
+                    }
+                }
+                let closing: Vec<usize> = c.readers.iter().enumerate().filter(|(_, (_, cl))| *cl == t).map(|(ri, _)| ri).collect();
+                for ri in closing {
+                    if let Some(pos) = open.iter().position(|(i, _, _)| *i == ri) {
+                        let (_, rtx, snap) = open.remove(pos);
+                        if let Some(d) = exec::verify_tx_against(&rtx, &snap, false) {
+                            st.o.violations.push((
+                                format!("reader-view-changed:{}", exec::classify_diff(&d)),
+                                format!("reader #{} held from tx {} to {} (with {} other readers open): {}", ri, c.readers[ri].0, c.readers[ri].1, open.len(), d),
+                            ));
+                        }
+                        drop(rtx);
+                    }
+                }
+                if open.is_empty() {
+                    crate::c03::forbid_grow(false);
+                } else {
+                    crate::c03::forbid_grow(true);
+                }
+                if !st.step(&db, c, path, t)? {
+                    break;
+                }
+                t += 1;
+            }
+            drop(open);
+            crate::c03::forbid_grow(false);
+            return Ok(());
+        }
         if c.handover {
             // a reader is open at every writer begin, but never for longer than one transaction
             crate::c03::forbid_grow(true);
@@ -298,6 +338,14 @@ fn judge(c: &Case, o: &mut Outcome) {
     let tight = (c.kind == "fixed-size-overwrite" || c.kind == "delete-reinsert") && !c.handover;
     // hand-over: the pages freed by the previous transaction stay pending one transaction longer
     let bound = if tight { l + 2 * d + 8 } else { 4 * (l + d) + 16 };
+    let mut c = c.clone();
+    if !c.readers.is_empty() {
+        // judged like one reader held from the first open to the last close
+        let a = c.readers.iter().map(|r| r.0).min().unwrap();
+        let z = c.readers.iter().map(|r| r.1).max().unwrap();
+        c.reader = (a, z);
+    }
+    let c = &c;
     let has_reader = c.reader.1 > c.reader.0;
     let warm = n / 10;
     for t in warm..n {
@@ -355,16 +403,17 @@ pub fn cases(ctx: &Ctx) -> Vec<Case> {
     let mut i = 0u64;
     for kind in ["fixed-size-overwrite", "delete-reinsert", "bucket-create-delete-overflow"] {
         i += 1;
-        v.push(Case { kind: kind.to_string(), pagesize: 1024, txs: t, reopen_every: 0, reader: (0, 0), handover: kind != "bucket-create-delete-overflow", seed: ctx.seed.wrapping_mul(977).wrapping_add(i) });
+        v.push(Case { kind: kind.to_string(), pagesize: 1024, txs: t, reopen_every: 0, reader: (0, 0), handover: kind != "bucket-create-delete-overflow", readers: vec![], seed: ctx.seed.wrapping_mul(977).wrapping_add(i) });
     }
     i += 1;
-    v.push(Case { kind: "bucket-create-delete-overflow".to_string(), pagesize: 1024, txs: t, reopen_every: 25, reader: (0, 0), handover: false, seed: ctx.seed.wrapping_mul(977).wrapping_add(i) });
+    v.push(Case { kind: "bucket-create-delete-overflow".to_string(), pagesize: 1024, txs: t, reopen_every: 25, reader: (0, 0), handover: false, readers: vec![], seed: ctx.seed.wrapping_mul(977).wrapping_add(i) });
     for kind in ["fixed-size-overwrite", "variable-size-overwrite", "delete-reinsert", "bucket-create-delete"] {
         for reopen in [0usize, 25] {
             for reader in [false, true] {
                 i += 1;
                 v.push(Case {
                     handover: false,
+                    readers: vec![],
                     kind: kind.to_string(),
                     pagesize: 1024,
                     txs: t,
@@ -379,12 +428,29 @@ pub fn cases(ctx: &Ctx) -> Vec<Case> {
             }
         }
     }
+    // several readers of different ages closing in every order; and two readers of the same snapshot
+    let a = t / 10;
+    let orders: [[usize; 3]; 6] = [[0, 1, 2], [0, 2, 1], [1, 0, 2], [1, 2, 0], [2, 0, 1], [2, 1, 0]];
+    for (oi, o) in orders.iter().enumerate() {
+        let mut rs = vec![(a, 0usize), (a + 2, 0), (a + 5, 0)];
+        for (k, r) in o.iter().enumerate() {
+            rs[*r].1 = a + 9 + 4 * k;
+        }
+        i += 1;
+        v.push(Case { kind: if oi % 2 == 0 { "fixed-size-overwrite" } else { "delete-reinsert" }.to_string(), pagesize: 1024, txs: t, reopen_every: 0, reader: (0, 0), handover: false, readers: rs, seed: ctx.seed.wrapping_mul(313).wrapping_add(i) });
+    }
+    for first_closes in [0usize, 1] {
+        let mut rs = vec![(a, a + 40), (a, a + 40)];
+        rs[first_closes].1 = a + 3;
+        i += 1;
+        v.push(Case { kind: "fixed-size-overwrite".to_string(), pagesize: 1024, txs: t, reopen_every: 0, reader: (0, 0), handover: false, readers: rs, seed: ctx.seed.wrapping_mul(313).wrapping_add(i) });
+    }
     if ctx.thorough() {
         // the same at page size 4096
         let more: Vec<Case> = v
             .iter()
             .filter(|c| c.reader == (0, 0))
-            .filter(|c| !c.handover)
+            .filter(|c| !c.handover && c.readers.is_empty())
             .map(|c| Case { pagesize: 4096, txs: c.txs / 2, ..c.clone() })
             .collect();
         v.extend(more);
@@ -432,7 +498,7 @@ pub fn run(ctx: &Ctx) -> Shard {
             "runs(kind,reopen,reader,L,D,first->last hwm)",
             format!(
                 "{}{} ps={} reopen_every={} reader={:?} txs={} L={} D={} hwm {}..{} reused_pages={}",
-                c.kind, if c.handover { " +reader-hand-over" } else { "" }, c.pagesize, c.reopen_every, c.reader, o.hwm.len(), o.max_live, o.max_delta,
+                c.kind, if c.handover { " +reader-hand-over".to_string() } else if !c.readers.is_empty() { format!(" +readers{:?}", c.readers) } else { String::new() }, c.pagesize, c.reopen_every, c.reader, o.hwm.len(), o.max_live, o.max_delta,
                 o.hwm.first().cloned().unwrap_or(0), o.hwm.last().cloned().unwrap_or(0), o.reuse
             ),
         );
@@ -450,6 +516,9 @@ pub fn run(ctx: &Ctx) -> Shard {
         }
         if c.handover {
             shard.count("runs_with_reader_hand_over", 1);
+        }
+        if !c.readers.is_empty() {
+            shard.count("runs_with_several_readers", 1);
         }
     }
     shard
